@@ -11,12 +11,12 @@ def mutants(src):
     if src and src.startswith('/tmp/rf'):
         for d in sorted(glob.glob(src + '/G*/_out/C*_r*.diff')):
             b = os.path.basename(d)[:-5]
-            out.append((b, b.split('_')[0], d))
+            out.append((b, ('all' if b.startswith('ALL_') else b.split('_')[0]), d))
         return out
     if src == 'refactors':
         for d in sorted(glob.glob('/verif/refactors/*/patch.diff')):
             b = d.split('/')[-2]
-            out.append((b, b.split('_')[0], d))
+            out.append((b, ('all' if b.startswith('ALL_') else b.split('_')[0]), d))
         return out
     if src == 'regressions':
         for d in sorted(glob.glob('/verif/regressions/*/patch.diff')):
